@@ -134,6 +134,9 @@ pub struct ExecOut {
     pub applied: Vec<(usize, String)>,
     pub faults: Vec<(usize, String)>,
     pub ever_inside: BTreeSet<(u64, u64)>,
+    /// never-inside objects the attacker has placed as direct entries into a directory that was inside (wherever that directory
+    /// sits now): as entries of such a directory they may be unlinked / replaced / truncated by an operation on that directory
+    pub exposed: BTreeSet<(u64, u64)>,
     pub horizon_hit: bool,
     pub timeout: bool,
     pub switches: u32,
@@ -278,6 +281,13 @@ pub fn execute(cfg: &ExecCfg, ch: &mut Chooser) -> MResult<ExecOut> {
                             m.apply_in(&mut mounted, ts[w].pid)?;
                             out.applied.push((out.events.len(), m.name.clone()));
                             out.ever_inside.extend(walk_inodes(&root_ref));
+                            if let Ok(all) = snapshot(&crate::sys::out("/w")) {
+                                for (p, n) in &all {
+                                    let parent = match p.rfind('/') { Some(i) => &p[..i], None => "" };
+                                    if p.is_empty() { continue; }
+                                    if let Some(pn) = all.get(parent) { if out.ever_inside.contains(&(pn.dev, pn.ino)) && !out.ever_inside.contains(&(n.dev, n.ino)) { out.exposed.insert((n.dev, n.ino)); } }
+                                }
+                            }
                             j += 1;
                             if j >= 4 { break; }
                         }
